@@ -464,6 +464,12 @@ func reverseP(v []P) []P {
 	return out
 }
 
+// DrawRingsAt draws k strictly nested rings (outermost first) about c with
+// outer radius at most rlimit; every ring has at least 8 vertices.
+func DrawRingsAt(t *rapid.T, label string, c s2.Point, k, maxN int, rlimit float64) RingsPolygon {
+	return drawRingsAt(t, label, c, k, maxN, rlimit)
+}
+
 func drawRingsAt(t *rapid.T, label string, c s2.Point, k, maxN int, rlimit float64) RingsPolygon {
 	rp := RingsPolygon{Center: FromPt(c)}
 	x, y := frame(c)
